@@ -413,6 +413,10 @@ func C11(p *Prog, r *Run) {
 		r.Check(okU, "Organism.UpdatePhenotype", p.Pos(up.Pos()), "always rebuilds and stores", "UpdatePhenotype does not unconditionally rebuild the cached network")
 	})
 
+	r.Rule("C11.8", "no stale phenotype: the network cached in Genome.Phenotype is written only by Genesis (the network it just built) or cleared; a function that expresses a genome and afterwards changes the genome's genes or nodes clears the cache (or expresses it again) before it returns - otherwise NewOrganism adopts a network that lacks the change and Organism.Phenotype() never rebuilds it", func() {
+		r.c11StaleCache(gen)
+	})
+
 	r.Rule("C11.3", "counts: NodeCount = base + control nodes; LinkCount = Σ Incoming of base nodes + Σ (Incoming+Outgoing) of control nodes; Complexity is their sum", func() {
 		nc := p.Func(PkgN, "Network.NodeCount")
 		lc := p.Func(PkgN, "Network.LinkCount")
@@ -757,4 +761,98 @@ func keysOf(m map[string]bool) []string {
 		out = append(out, k)
 	}
 	return out
+}
+
+// c11StaleCache: see rule C11.8. Found by a seeding sub-agent as a genuine defect of the pinned tree (F15):
+// mutateAddLink expressed a fresh genome for its recurrence test, inserted the new gene and left the network
+// without that gene in Genome.Phenotype, which NewOrganism adopts as the organism's phenotype.
+func (r *Run) c11StaleCache(gen *ssa.Function) {
+	p := r.P
+	cache := p.Field(PkgG, "Genome", "Phenotype")
+	writers := map[*ssa.Function]bool{}
+	for _, n := range []string{"Genome.geneInsert", "Genome.nodeInsert", "Genome.addNode"} {
+		if f := p.FuncOpt(PkgG, n); f != nil {
+			writers[f] = true
+		}
+	}
+	lists := map[*types.Var]bool{}
+	for _, n := range []string{"Genes", "Nodes", "ControlGenes"} {
+		lists[p.Field(PkgG, "Genome", n)] = true
+	}
+	enabled := p.Field(PkgG, "Gene", "IsEnabled")
+	isNil := func(v ssa.Value) bool { k, ok := v.(*ssa.Const); return ok && k.Value == nil }
+	nStores, nSites := 0, 0
+	for _, fn := range p.SrcFuncs() {
+		if fn.Pkg == nil || fn.Pkg.Pkg.Path() != PkgG {
+			continue
+		}
+		// who writes the cache, and what
+		for _, st := range FieldStores(fn, cache) {
+			nStores++
+			if isNil(st.Val) {
+				r.OK("cache-writer:"+FuncName(fn), p.Pos(st.Pos()), "the cached network is cleared")
+				continue
+			}
+			okW := fn == gen
+			if okW {
+				// the network Genesis assembled in this call
+				c, isCall := st.Val.(*ssa.Call)
+				if ph, isPhi := st.Val.(*ssa.Phi); isPhi {
+					okW = true
+					for _, e := range ph.Edges {
+						if _, ok := e.(*ssa.Call); !ok {
+							okW = false
+						}
+					}
+				} else {
+					okW = isCall && c != nil
+				}
+			}
+			r.Check(okW, "cache-writer:"+FuncName(fn), p.Pos(st.Pos()), "Genesis caches the network it built", FuncName(fn)+" stores a network into Genome.Phenotype that Genesis did not just build from this genome")
+		}
+		if fn == gen {
+			continue
+		}
+		for _, gc := range CallsTo(fn, gen) {
+			x := gc.Common().Args[0]
+			clears := func(in ssa.Instruction) bool {
+				if st, ok := in.(*ssa.Store); ok && StoredField(st) == cache && isNil(st.Val) && st.Addr.(*ssa.FieldAddr).X == x {
+					return true
+				}
+				if c, ok := in.(ssa.CallInstruction); ok && c.Common().StaticCallee() == gen && len(c.Common().Args) > 0 && c.Common().Args[0] == x {
+					return true
+				}
+				return false
+			}
+			var changes []ssa.Instruction
+			Instrs(fn, func(_ *ssa.BasicBlock, _ int, in ssa.Instruction) {
+				switch y := in.(type) {
+				case ssa.CallInstruction:
+					if writers[y.Common().StaticCallee()] && len(y.Common().Args) > 0 && y.Common().Args[0] == x {
+						changes = append(changes, in)
+					}
+				case *ssa.Store:
+					f := StoredField(y)
+					if f == enabled || (lists[f] && y.Addr.(*ssa.FieldAddr).X == x) {
+						changes = append(changes, in)
+					}
+				}
+			})
+			for _, ch := range changes {
+				// only changes that can happen after the genome was expressed
+				after := ch.Block() == gc.Block() && instrIndex(ch) > instrIndex(gc) || ch.Block() != gc.Block() && (gc.Block().Dominates(ch.Block()) || reachesBlock(gc.Block(), ch.Block()))
+				if !after {
+					continue
+				}
+				nSites++
+				r.CallSites++
+				path := FindPath(p, PathQuery{Fn: fn, FlagBlind: true, StartAfter: ch, Target: IsReturn, Avoid: clears})
+				r.Check(path == nil, "stale:"+FuncName(fn), p.Pos(ch.Pos()), "after this change of the expressed genome the cached network is cleared or rebuilt on every path to a return",
+					FuncName(fn)+" expresses the genome (Genesis caches the network in Genome.Phenotype) and changes the genome afterwards, but can return without clearing the cache: NewOrganism adopts the stale network and the organism is evaluated on a phenotype that lacks the change", path...)
+			}
+		}
+		r.Fn(FuncName(fn))
+	}
+	r.Floor("stores to Genome.Phenotype", nStores, 1)
+	r.Note("C11.8: %d change(s) of a genome after its expression inside one function", nSites)
 }
